@@ -1,9 +1,15 @@
-"""C05 known finding: homodimer substrates (2A -> B) share one argument replacement.
+"""C05 findings c05-homodimer and c05-labelled-modifier: renaming of the rate arguments of a mapped reaction.
 
-_create_isotopomer_reactions renames rate arguments through ONE dict keyed by the base name, so both
-occurrences of A in args=[A, A, k] become the LAST isotopomer of the pattern: v__01 gets (A__1, A__1).
-At A__0=3, A__1=1, k=1 the summed derivative of A's isotopomers is -40; the base model at A=4 gives -32.
-Exit 1 while the behaviour is present.
+_create_isotopomer_reactions renames rate arguments through ONE dict keyed by the base name:
+
+(1) homodimer: both occurrences of A in args=[A, A, k] of 2A -> B become the LAST isotopomer of the pattern
+    (v__01 gets (A__1, A__1)).  At A__0=3, A__1=1, k=1 the summed derivative of A's isotopomers is -40; the
+    base model at A=4 gives -32.
+(2) labelled modifier: a labelled compound M that enters the rate of A -> B without taking part in the reaction
+    keeps its base name 'M', which the labelled model does not define (only M__0, M__1, M__total): the
+    right-hand side cannot be evaluated (MissingDependenciesError).
+
+Exit 1 while either behaviour is present; exit 0 with fixes/C05-homodimer.diff applied.
 
 Run: PYTHONPATH=<repo>/src /venv/bin/python findings/c05_homodimer.py
 """
@@ -16,6 +22,9 @@ def ma2(a, b, k):
     return k * a * b
 
 
+bad = 0
+
+# (1) homodimer
 m = Model().add_variables({"A": 4.0, "B": 0.0}).add_parameters({"k": 1.0})
 m.add_reaction("v", fn=ma2, args=["A", "A", "k"], stoichiometry={"A": -2, "B": 1})
 lm = LabelMapper(m, label_variables={"A": 1, "B": 2}, label_maps={"v": [0, 1]}).build_model()
@@ -24,5 +33,22 @@ state = {"A__0": 3.0, "A__1": 1.0, "B__00": 0.0, "B__01": 0.0, "B__10": 0.0, "B_
 rhs = lm.get_right_hand_side(state, time=0.0)
 got = rhs["A__0"] + rhs["A__1"]
 want = m.get_right_hand_side({"A": 4.0, "B": 0.0}, time=0.0)["A"]
-print("summed isotopomer derivative of A:", got, " base derivative at the total:", want)
-sys.exit(0 if got == want else 1)
+print("homodimer: summed isotopomer derivative of A:", got, " base derivative at the total:", want)
+bad += got != want
+
+# (2) labelled modifier
+m = Model().add_variables({"A": 2.0, "B": 0.0, "M": 3.0}).add_parameters({"k": 1.0})
+m.add_reaction("v", fn=ma2, args=["A", "M", "k"], stoichiometry={"A": -1, "B": 1})
+lm = LabelMapper(m, label_variables={"A": 1, "B": 1, "M": 1}, label_maps={"v": [0]}).build_model()
+print({k: r.args for k, r in lm.get_raw_reactions().items()})
+state = {"A__0": 1.0, "A__1": 1.0, "B__0": 0.0, "B__1": 0.0, "M__0": 2.0, "M__1": 1.0}
+want = m.get_right_hand_side({"A": 2.0, "B": 0.0, "M": 3.0}, time=0.0)["A"]
+try:
+    rhs = lm.get_right_hand_side(state, time=0.0)
+    got = rhs["A__0"] + rhs["A__1"]
+    print("labelled modifier: summed isotopomer derivative of A:", got, " base derivative at the totals:", want)
+    bad += got != want
+except Exception as e:  # noqa: BLE001
+    print("labelled modifier: right-hand side of the labelled model cannot be evaluated:", type(e).__name__, "(base derivative at the totals:", want, ")")
+    bad += 1
+sys.exit(1 if bad else 0)
